@@ -1,7 +1,7 @@
 (* C17 — property theorems only: pinned statement, `exact`, Print Assumptions. *)
 From Coq Require Import List NArith Bool.
 Import ListNotations.
-From L4 Require Import Common.FSRoll Common.LockSerial Model.Rolling Proofs.Rolling Proofs.RollingStream Proofs.RollingConc.
+From L4 Require Import Common.FSRoll Common.LockSerial Model.Rolling Model.RollingFail Proofs.Rolling Proofs.RollingStream Proofs.RollingConc Proofs.RollingFail.
 Local Open Scope N_scope.
 
 (* A lifetime = an appender built (append or truncate mode) over the directory
@@ -114,6 +114,23 @@ Theorem C17_critical_section_is_append :
 Proof. exact append_micro_seq. Qed.
 Print Assumptions C17_critical_section_is_append.
 
+(* A lifetime in which any append may hit a FAILING roller (Model/RollingFail.v),
+   built over a directory left by any history with failed rolls: the numbers of
+   rotations requested per append are (1 or 0, 0, 0, ...) — one request, in the
+   first append only, iff the build-time file holds >= min_size bytes, whether
+   or not that rotation succeeds; a failed one is never retried. *)
+Theorem C17_requests_once_failing_rolls :
+  forall m rl s a ops,
+    let c := {| trig := TStartup m; roll_by := rl |} in
+    (exists pre ops0, s = fst (xrun_ops c ops0 (raw pre))) ->
+    forallb (fun o => match o with XOp (Append _) => true | XAppendFail _ => true | _ => false end) ops = true ->
+    let s0 := fst (build a (files s) (consults s)) in
+    let big := m <=? disk_len (files s0) in
+    map (fun p => rolls (fst p)) (snd (xrun_ops c ops s0))
+    = match ops with [] => [] | _ :: rest => (if big then 1 else 0)%nat :: repeat 0%nat (length rest) end.
+Proof. exact startup_requests_once_x. Qed.
+Print Assumptions C17_requests_once_failing_rolls.
+
 (* Non-vacuity: min_size 2 over "abc": first append rolls, later ones do not; after
    a restart over 2 bytes it rolls again, after one over 1 byte it does not; min_size 0 in truncate mode rolls the empty file. *)
 Example C17_example :
@@ -146,3 +163,11 @@ Example C17_example_threads :
   /\ map (fun n => lookup (files (fst (shared sh (list bytes) st))) n) [Active; Arch 1; Arch 2]
      = [Some [67;66;65]; Some [97;98;99]; None].
 Proof. vm_compute. repeat split; reflexivity. Qed.
+
+(* the start-up rotation fails: Err, record 1 not written, old file kept; no retry *)
+Example C17_example_failing_roll :
+  let c := {| trig := TStartup 1; roll_by := Window 0 1 |} in
+  let r := xrun c true (Some [97]) [XAppendFail [[49]]; XOp (Append [[50]]); XOp (Append [[51]])] in
+  map (fun n => lookup (files (fst r)) n) [Active; Arch 0] = [Some [97;50;51]; None]
+  /\ map (fun p => (rolls (fst p), snd p)) (snd r) = [(0, false); (1, true); (0, false); (0, false)]%nat.
+Proof. vm_compute. split; reflexivity. Qed.
